@@ -345,6 +345,10 @@ def _eq_obj(o, s):
         return o is s
 
 
+from datetime import datetime, timedelta
+T0C = datetime(2024, 3, 1, 12, 0, 0)
+
+
 def _arg_forms():
     """name -> (make_args(rng, a, b) -> list of caller-owned objects, call(a, b, *args))"""
     F = {}
@@ -361,6 +365,8 @@ def _arg_forms():
                             lambda a, b, arr, dims, org: darsia.Image(arr, space_dim=2, scalar=True, dimensions=dims, origin=org))
     F["ctor-series-times"] = (lambda rng, a, b: [np.stack([a.img, b.img], axis=2), [1.0, 1.5], [0.5, 2.5]],
                               lambda a, b, arr, dims, times: darsia.Image(arr, space_dim=2, scalar=True, series=True, dimensions=dims, time=times))
+    F["ctor-series-dates-times"] = (lambda rng, a, b: [np.stack([a.img, b.img], axis=2), [1.0, 1.5], [T0C, T0C + timedelta(hours=1)], [0.0, 10.0]],
+                                    lambda a, b, arr, dims, dates, times: darsia.Image(arr, space_dim=2, scalar=True, series=True, dimensions=dims, date=dates, time=times))
     F["weight-array-vector"] = (lambda rng, a, b: [darsia.Image(np.stack([a.img, b.img], axis=2), space_dim=2, scalar=False, dimensions=[1.0, 1.5]), np.array([0.5, 2.0])],
                                 lambda a, b, v, w: darsia.weight(v, w))
     F["geometry-ctor"] = (lambda rng, a, b: [[8, 12], [1.0, 1.5]], lambda a, b, nv, dims: darsia.Geometry(space_dim=2, num_voxels=nv, dimensions=dims).integrate(a))
@@ -404,3 +410,35 @@ def c17_frame_args(ctx, form):
             ctx.ensure(f"{form}: list argument #{k} still holds the same objects", [id(e) for e in x] == ids[k])
     ctx.ensure(f"{form}: image a exactly as it was", _same_deep(a, sa))
     ctx.ensure(f"{form}: image b exactly as it was", _same_deep(b, sb))
+
+
+SERIES_FORMS = ("resize-factor", "resize-shape", "resize-ref", "uniform_refinement+1", "uniform_refinement-1", "equalize_voxel_size", "superpose", "img_as-float", "astype-float32",
+                "reduce-average", "subregion-coordinates", "add", "lt", "mul", "weight-scalar", "integrate", "copy", "sub", "zeros_like", "time_slice", "time_interval", "subregion-slices",
+                "astype-image")
+
+
+@ob("C17.frame_series_clock", kind="B", cases=[dict(form=k) for k in SERIES_FORMS], funcs=FUNCS, samples=(1, 2),
+    cite="leave every argument (pixel data, metadata ...) exactly as it was",
+    note="bounded: time series that carry absolute dates AND an independent list of relative times (an experiment clock that is not date - reference date); the metadata "
+         "containers (date / time lists) are shared with results through metadata() unless copied")
+def c17_frame_series_clock(ctx, form):
+    import contextlib, io, warnings
+    rng = np.random.default_rng(ctx.rng.randrange(1 << 30))
+    dates = lambda: [T0C + timedelta(hours=k) for k in range(3)]
+    mk = lambda: darsia.ScalarImage(0.05 + rng.random((8, 12, 3)), dimensions=[1.0, 1.5], series=True, date=dates(), time=[0.0, 10.0, 25.0], name="x")
+    a, b = mk(), mk()
+    a.time, b.time = [0.0, 10.0, 25.0], [0.0, 10.0, 25.0]      # the state the constructor produces for such arguments, set directly (however it was reached)
+    R = dict(_registry())
+    R["sub"] = lambda a, b: a - b
+    R["zeros_like"] = lambda a, b: darsia.zeros_like(a)
+    R["time_slice"] = lambda a, b: a.time_slice(1)
+    R["time_interval"] = lambda a, b: a.time_interval(slice(0, 2))
+    R["subregion-slices"] = lambda a, b: a.subregion((slice(1, 5), slice(2, 9)))
+    R["astype-image"] = lambda a, b: a.astype(darsia.Image)
+    sa, sb = _deep(a), _deep(b)
+    ta, da = list(a.time), list(a.date)
+    with contextlib.redirect_stdout(io.StringIO()), warnings.catch_warnings():
+        warnings.simplefilter("ignore")
+        res = R[form](a, b)
+    ctx.ensure(f"{form}: the series handed in is exactly as it was (data, dates, relative times)", _same_deep(a, sa) and a.time == ta and a.date == da)
+    ctx.ensure(f"{form}: the second series exactly as it was", _same_deep(b, sb))
